@@ -13,7 +13,7 @@
 From Coq Require Import ZArith List Bool Arith Lia.
 From SP Require Import Design.Flat Design.Layout Design.Sem Comb.CombModel Comb.CombSpec Random.Enum Random.Frag
   Random.FragSem Random.RunLemmas Random.FragPerm Random.Frag0Enum Random.Frag0Decode Random.Frag0Sem Random.Frag0Valid
-  Random.Frag0Keys Random.Frag0Inj Random.Frag0Complete Random.Frag1Cons.
+  Random.Frag0Keys Random.Frag0Inj Random.Frag0Complete Random.Frag1Cons Random.Frag2Cross.
 From SP Require Comb.PermProofs Encode.CodeSem.
 Import ListNotations.
 Open Scope nat_scope.
@@ -79,11 +79,16 @@ Lemma f2_accepts_valid k r : key_ok fb k -> (forall g, row_of_run r g = decoded_
 Proof.
   intros Hk Hrow. rewrite (f0_valid_base fb HF Hq k Hk r Hrow).
   unfold accepts. rewrite Hen.
-  destruct (f0_trials fb (f0_unpack fb HF)) as [HT | Hnr].
-  - rewrite (f1_violated fb HF r); [rewrite negb_involutive; reflexivity | | reflexivity].
-    intros g Hg. pose proof (decoded_row_length fb HF Hq k g Hk Hg) as Hl. rewrite <- Hrow in Hl.
-    unfold row_of_run in Hl. destruct (rlookup r g) as [row|]; [exists row; auto | cbn in Hl; lia].
-  - (* no constraint is ever evaluated on a row *)
+  destruct (f0_trials fb (f0_unpack fb HF)) as [HT | [Hnr Hone]].
+  - rewrite (f2_violated fb HF m lm r); [rewrite negb_involutive; reflexivity|].
+    intros g Hg. pose proof (decoded_row_length fb HF Hq k g Hk Hg) as Hl.
+    pose proof (decoded_row_cells fb HF Hq k g Hk Hg) as Hc. rewrite <- Hrow in Hl, Hc.
+    unfold row_of_run in Hl, Hc. destruct (rlookup r g) as [row|]; [exists row; auto | cbn in Hl; lia].
+  - (* one crossing, and no constraint is ever evaluated on a row *)
+    assert (Ho : f0_ocrossings fb = []).
+    { unfold f0_ocrossings. rewrite (f0_crossings fb (f0_unpack fb HF)) in Hone. cbn in Hone.
+      destruct (tl (fl_crossings fb)); [reflexivity | cbn in Hone; lia]. }
+    rewrite Ho. cbn [forallb andb].
     unfold no_rejecting_constraints in Hnr. rewrite forallb_forall in Hnr.
     assert (Hs : s_constraints S0 = []).
     { rewrite (f0_sem_constraints fb HF). induction (fl_constraints fb) as [|x t IH]; [reflexivity|].
@@ -99,7 +104,7 @@ Proof.
       pose proof (Hnr x (or_introl eq_refl)) as Hx. destruct x; try discriminate; cbn [constraint_conforms rbind];
         apply IH; intros y Hy; apply Hnr; right; exact Hy. }
     rewrite H. cbn [rbind]. cbn [en_base f0_enum eb_has_cc f0_base orb].
-    rewrite (f0_crossings fb (f0_unpack fb HF)). reflexivity.
+    rewrite Hone. reflexivity.
 Qed.
 
 Lemma f2m_accept_sound k cand :
@@ -197,9 +202,14 @@ Proof.
   intros Hrf Hin. rewrite (f2m_key_accepted_spec k Hin).
   pose proof (f2_keys_of_ok k Hin) as Hk. destruct (f2_decode_key k Hk) as [r [Hd Hrow]].
   unfold cand_tseq. rewrite Hd. rewrite (f0_valid_base fb HF Hq k Hk r Hrow).
+  unfold rejection_free in Hrf. apply andb_prop in Hrf. destruct Hrf as [Hrf Hone]. apply Nat.leb_le in Hone.
+  assert (Ho : f0_ocrossings fb = []).
+  { unfold f0_ocrossings. rewrite (f0_crossings fb (f0_unpack fb HF)) in Hone. cbn in Hone.
+    destruct (tl (fl_crossings fb)); [reflexivity | cbn in Hone; lia]. }
+  rewrite Ho. cbn [forallb andb].
   rewrite (f0_sem_constraints fb HF). apply forallb_forall. intros dc Hdc.
   apply in_flat_map in Hdc. destruct Hdc as [x [Hx Hdc]].
-  unfold rejection_free in Hrf. rewrite forallb_forall in Hrf. pose proof (Hrf x Hx) as Hk'.
+  rewrite forallb_forall in Hrf. pose proof (Hrf x Hx) as Hk'.
   destruct x; try discriminate; try (destruct Hdc; fail).
   destruct Hdc as [E | []]. subst dc.
   pose proof (f0_constraints fb (f0_unpack fb HF) _ Hx) as Hc. cbn [constraint_f1] in Hc.
